@@ -2,7 +2,7 @@ import Rtsp.Model.Codec.Mpeg1Video
 import Rtsp.Proofs.Codec.Common
 /-
 Property theorems for pkg/format/rtpmpeg1video about the model in `Model/Codec/Mpeg1Video.lean`
-(the decoder as repaired by f36684c / 0492fab / 6d01574).
+(the decoder as repaired by f36684c / e33085a / 85f0949).
 
   C06  c06_payload_le, c06_seq_consecutive, c06_pt_ssrc, c06_marker_only_last
   C08  c08_inv_init, c08_inv_decode, c08_retained_le, c08_out_le, c08_split_total
@@ -521,7 +521,7 @@ theorem c08_retained_le (P : Nat) (d : Dec) (hi : Inv P d) : retained d ≤ maxF
 
 /-- **C08 fragment / slice count**: the lists never hold more entries than bytes (plus one for a
 header-only start fragment) — header-only slices and following fragments are refused since
-ea75fb6 — so the lists themselves, and the packet buffers they pin, obey the same bound. -/
+07ef6d1 — so the lists themselves, and the packet buffers they pin, obey the same bound. -/
 theorem c08_fragment_count_le (P : Nat) (d : Dec) (hi : Inv P d) :
     d.fragments.length + d.sliceBuf.length ≤ maxFrameSize + P + 1 := by
   have := hi.frag_n; have := hi.slice_n; have := hi.sum_le
